@@ -159,7 +159,7 @@ impl Engine for C02 {
             json!({"agnostic": 3}),
         ));
         v.push(Phase::new(
-            "annotation matrix: 17 keys x 14 value shapes x 9 positions x 8 targets, judged where the reference gives a meaning",
+            "annotation matrix: 17 keys x 15 value shapes x 9 positions x 8 targets, judged where the reference gives a meaning",
             json!({"matrix": true}),
         ));
         v.push(Phase::new(
